@@ -25,6 +25,8 @@ def cells(tier):
             out.append(cell(f"s{size} A3 cancel0 flush {worker} slowccb", sc, MON))
     sc = scen(pool(2), [[A("A", 2)], [M("M", 2, 1)], [cancel(rid("M", 0))], [P]], outcomes=["ret"] if q else ["ret", "exc"], ecb="plain", ccb="plain")
     out.append(cell("s2 A2|M2/1 cancelM0", sc, MON))
+    sc = scen(pool(2), [[A("A", 2)], [["cancel", rid("A", 1), {"msg": "why"}]], [P]], outcomes=["ret"], ecb="plain", ccb="plain")
+    out.append(cell("s2 A2 cancel1(msg)", sc, MON))
     sc = scen(pool(1), [[A("A", 2)], [FLUSH], [P]], outcomes=["ret", "exc"])
     out.append(cell("s1 A2 flush nocb", sc, MON))
     sc = scen(pool(2, "SimpleTaskPool", ecb="plain", ccb="plain"), [[S("S", 3)], [["stop", 1]], [P]], outcomes=["ret"])
